@@ -111,7 +111,7 @@ Definition is_framing (n : bytes) : bool := ci_is k_cl n || ci_is k_te n || ci_i
 Definition wf (c : cfg) : bool :=
   forallb hdr_ok (pre c) && forallb (fun h => negb (is_framing (fst h))) (pre c)
   && nocr (reason c) && (100 <=? status c) && (status c <=? 999)
-  && (negb (stream c) || negb (sized c)).
+  && (negb (stream c) || negb (sized c) || match chunks c with [] => true | _ => false end).
 
 (* the body can only be delimited by closing the connection *)
 Definition until_close (c : cfg) : bool :=
@@ -258,7 +258,7 @@ Qed.
 Lemma wf_parts : forall c, wf c = true ->
   forallb hdr_ok (pre c) = true /\ forallb (fun h => negb (is_framing (fst h))) (pre c) = true
   /\ nocr (reason c) = true /\ (100 <=? status c) && (status c <=? 999) = true
-  /\ (negb (stream c) || negb (sized c)) = true.
+  /\ (negb (stream c) || negb (sized c) || match chunks c with [] => true | _ => false end) = true.
 Proof.
   intros c H. unfold wf in H.
   repeat (apply andb_true_iff in H; destruct H as [H ?]).
@@ -419,11 +419,11 @@ Definition body_wire (c : cfg) : bytes :=
   if chunked c then concat (map frame (filter nonempty (body_pieces c))) ++ term
   else concat (eff_chunks c).
 
-Lemma stream_not_sized : forall c, wf c = true -> eff_stream c = true -> eff_sized c = false.
+Lemma stream_not_sized : forall c, wf c = true -> eff_stream c && truthy c = true -> eff_sized c = false.
 Proof.
   intros c H Hs. apply wf_parts in H. destruct H as [_ [_ [_ [_ H]]]].
-  unfold eff_stream in Hs. unfold eff_sized.
-  destruct (nobody_status (status c)), (stream c), (sized c); simpl in *; congruence.
+  unfold eff_stream, truthy, eff_sized, eff_chunks in *.
+  destruct (nobody_status (status c)), (stream c), (sized c), (chunks c); simpl in *; congruence.
 Qed.
 
 Lemma map_id_ext : forall (l : list bytes), map (fun d => d) l = l.
@@ -434,8 +434,7 @@ Lemma respond_form : forall c, wf c = true -> head c = false ->
 Proof.
   intros c H Hh. unfold wire, closed, respond, body_wire, body_pieces. rewrite Hh.
   destruct (eff_stream c && truthy c) eqn:Est.
-  - apply andb_true_iff in Est. destruct Est as [Es _].
-    rewrite (stream_not_sized c H Es).
+  - rewrite (stream_not_sized c H Est).
     split; [discriminate|]. split; [|reflexivity].
     destruct (chunked c).
     + cbn [app concat]. rewrite concat_app. cbn [concat]. rewrite app_nil_r. reflexivity.
@@ -583,4 +582,24 @@ Proof.
     rewrite roundtrip; [| assumption |].
     + rewrite IH by assumption. reflexivity.
     + intro Hu. rewrite open_not_until_close in Hu by assumption. discriminate.
+Qed.
+
+Lemma chunked_only_11 : forall c, chunked c = true -> v11 c = true /\ head c = false /\ clen c = None.
+Proof.
+  intros c H. unfold chunked in H. destruct (clen c); [discriminate|].
+  destruct (status c =? 413); [discriminate|]. destruct (v11 c), (head c); simpl in H; try discriminate.
+  repeat split.
+Qed.
+
+Lemma content_length_exact : forall c n, clen c = Some n ->
+  n = N.of_nat (length (concat (eff_chunks c))).
+Proof. intros c n H. apply (clen_some c n H). Qed.
+
+Lemma expected_app_data : forall c,
+  incl (pre c) (p_headers (expected c)) /\ p_status (expected c) = status c /\
+  p_body (expected c) = if head c || nobody_status (status c) then [] else concat (chunks c).
+Proof.
+  intro c. unfold expected. cbn [p_headers p_status p_body]. split; [|split; [reflexivity|]].
+  - unfold out_headers. apply incl_appl. apply incl_refl.
+  - unfold eff_chunks. destruct (head c), (nobody_status (status c)); reflexivity.
 Qed.
